@@ -1,9 +1,181 @@
 (** C07 — checkpoint archives are canonical; mismatches are rejected, never panic. *)
-From Akita Require Import Lib.Base Lib.KeySort C07.Model C07.Proofs.
+From Akita Require Import Lib.Base Lib.KeySort C07.Model C07.Exec C07.Proofs.
 Local Open Scope N_scope.
 
+(** Canonical archives: for every simulation [s] (entity names are byte strings, Go maps
+    have distinct keys), every rebuilt simulation [s0] with distinct entity names in ANY
+    registration order: if saving [s] writes the archive [a] and loading [a] into [s0]
+    succeeds with [s'], then saving [s'] writes exactly [a] again. *)
+Theorem c07_canonical :
+  forall cfg b s s0 a s',
+    names_ok s -> inv_sim s -> NoDup (map fst s0) ->
+    save_sim b s = Ok a -> load_all cfg b a s0 = Ok s' ->
+    save_sim b s' = Ok a /\ inv_sim s'.
+Proof. exact canonical. Qed.
+Print Assumptions c07_canonical.
+
+(** per entity: the payload an entity was loaded from is the payload it saves *)
+Theorem c07_entity_canonical :
+  forall cfg e e0 e',
+    inv_entity e -> load_entity cfg e0 (save_entity e) = Ok e' ->
+    save_entity e' = save_entity e /\ inv_entity e'.
+Proof. exact entity_canonical. Qed.
+Print Assumptions c07_entity_canonical.
+
+(** reading back what was written: build id, name-sorted entity list, no duplicates *)
+Theorem c07_read_write :
+  forall b entries es,
+    Forall (fun np => bytes_ok (fst np)) entries -> write_archive b entries = Ok es ->
+    read_archive es = Ok (b, sort_name entries) /\
+    es = mk_te KReg build_id_path (DBytes b) :: map mk_entry (sort_name entries) /\
+    NoDup (map fst entries) /\ b <> [].
+Proof. exact read_write. Qed.
+Print Assumptions c07_read_write.
+
+(** never a panic: for ALL archives, build ids, registries and rebuilt simulations *)
+Theorem c07_no_panic :
+  forall cfg build es s0, load_all cfg build es s0 <> Panic.
+Proof. exact load_all_no_panic. Qed.
+Print Assumptions c07_no_panic.
+
+Theorem c07_entity_load_no_panic : forall cfg e0 p, load_entity cfg e0 p <> Panic.
+Proof. exact load_entity_no_panic. Qed.
+Print Assumptions c07_entity_load_no_panic.
+
+Theorem c07_save_no_panic : forall build s, save_sim build s <> Panic.
+Proof. exact save_sim_no_panic. Qed.
+Print Assumptions c07_save_no_panic.
+
+(** the loader before the fix commit a3b19062 panicked *)
 Theorem c07_port_overflow_old_refuted :
   load_entity_old overflow_cfg (EPort 1 [] 1 []) overflow_payload = Panic /\
   load_entity overflow_cfg (EPort 1 [] 1 []) overflow_payload = Err EOverflow.
 Proof. exact port_overflow_old. Qed.
 Print Assumptions c07_port_overflow_old_refuted.
+
+(** malformed archive: a non-regular / undecodable / unknown entry, a missing, duplicate or
+    empty build id, a duplicate entity *)
+Theorem c07_mismatch_rejected_malformed_archive :
+  forall cfg build es s0,
+    (exists e, In e es /\ ~ entry_fine e) \/
+    length (build_entries es) <> 1%nat \/
+    (exists e, build_entries es = [e] /\ te_data e = DBytes []) \/
+    ~ NoDup (map fst (ent_list es)) ->
+    exists e, load_all cfg build es s0 = Err e.
+Proof.
+  intros cfg build es s0 H. destruct (malformed_archive_rejected es H) as [e He].
+  exists e. apply load_all_read_err. exact He.
+Qed.
+Print Assumptions c07_mismatch_rejected_malformed_archive.
+
+Theorem c07_mismatch_rejected_build_id :
+  forall cfg build es s0 b pl,
+    read_archive es = Ok (b, pl) -> b <> build -> load_all cfg build es s0 = Err EBuildMismatch.
+Proof. exact build_mismatch_rejected. Qed.
+Print Assumptions c07_mismatch_rejected_build_id.
+
+Theorem c07_mismatch_rejected_entity_set_saved :
+  forall cfg build es s0 pl n,
+    read_archive es = Ok (build, pl) -> In n (map fst pl) -> ~ In n (map fst s0) ->
+    load_all cfg build es s0 = Err ESavedNotRebuilt.
+Proof. exact saved_not_rebuilt_rejected. Qed.
+Print Assumptions c07_mismatch_rejected_entity_set_saved.
+
+Theorem c07_mismatch_rejected_entity_set_rebuilt :
+  forall cfg build es s0 pl n,
+    read_archive es = Ok (build, pl) -> (forall m, In m (map fst pl) -> In m (map fst s0)) ->
+    In n (map fst s0) -> ~ In n (map fst pl) ->
+    load_all cfg build es s0 = Err ERebuiltMissing.
+Proof. exact rebuilt_missing_rejected. Qed.
+Print Assumptions c07_mismatch_rejected_entity_set_rebuilt.
+
+(** any entity whose payload disagrees with its rebuilt configuration (component spec, port
+    buffer capacity, storage shape, page size, unknown handler, unknown message / event type,
+    undecodable payload — the decidable [entity_mismatch_b]) makes the whole load fail *)
+Theorem c07_mismatch_rejected_entity :
+  forall cfg build es s0 b pl n e0 p,
+    read_archive es = Ok (b, pl) -> In (n, e0) s0 -> lookup n pl = Some p ->
+    entity_mismatch_b cfg e0 p = true ->
+    exists e, load_all cfg build es s0 = Err e.
+Proof. exact entity_mismatch_rejected. Qed.
+Print Assumptions c07_mismatch_rejected_entity.
+
+Theorem c07_mismatch_rejected_spec :
+  forall cfg h st ht nt h' st' ht' nt',
+    h <> h' -> load_entity cfg (EComp h st ht nt) (PComp h' st' ht' nt') = Err ESpecHash.
+Proof. exact spec_mismatch. Qed.
+Print Assumptions c07_mismatch_rejected_spec.
+
+Theorem c07_mismatch_rejected_evspec :
+  forall cfg h st pw h' st' pw',
+    h <> h' -> load_entity cfg (EEvComp h st pw) (PEvComp h' st' pw') = Err ESpecHash.
+Proof. exact evspec_mismatch. Qed.
+Print Assumptions c07_mismatch_rejected_evspec.
+
+Theorem c07_mismatch_rejected_port_capacity_incoming :
+  forall cfg ic ie oc oe bi bo,
+    bc_cap bi <> ic -> load_entity cfg (EPort ic ie oc oe) (PPort bi bo) = Err ECapIncoming.
+Proof. exact port_incoming_capacity_mismatch. Qed.
+Print Assumptions c07_mismatch_rejected_port_capacity_incoming.
+
+Theorem c07_mismatch_rejected_port_capacity_outgoing :
+  forall cfg ic ie oc oe bi bo mi,
+    load_buffer cfg ic ECapIncoming bi = Ok mi -> bc_cap bo <> oc ->
+    load_entity cfg (EPort ic ie oc oe) (PPort bi bo) = Err ECapOutgoing.
+Proof. exact port_outgoing_capacity_mismatch. Qed.
+Print Assumptions c07_mismatch_rejected_port_capacity_outgoing.
+
+Theorem c07_port_overflow_rejected :
+  forall cfg cap mism l ms,
+    decode_msgs cfg l = Ok ms -> (cap < Z.of_nat (length ms))%Z ->
+    load_buffer cfg cap mism (mk_bufck cap (Some l)) = Err EOverflow.
+Proof. exact port_overflow_rejected. Qed.
+Print Assumptions c07_port_overflow_rejected.
+
+Theorem c07_mismatch_rejected_storage_capacity :
+  forall cfg c u us c' u' rest units,
+    c' <> c -> load_entity cfg (EStorage c u us) (PStorage (c' :: u' :: rest) units) = Err EStorageCap.
+Proof. exact storage_capacity_mismatch. Qed.
+Print Assumptions c07_mismatch_rejected_storage_capacity.
+
+Theorem c07_mismatch_rejected_storage_unit :
+  forall cfg c u us u' rest units,
+    u' <> u -> load_entity cfg (EStorage c u us) (PStorage (c :: u' :: rest) units) = Err EStorageUnit.
+Proof. exact storage_unit_mismatch. Qed.
+Print Assumptions c07_mismatch_rejected_storage_unit.
+
+Theorem c07_mismatch_rejected_page_size :
+  forall cfg l tb l' tables,
+    l' <> l -> load_entity cfg (EPageTable l tb) (PPageTable l' tables) = Err EPageSize.
+Proof. exact page_size_mismatch. Qed.
+Print Assumptions c07_mismatch_rejected_page_size.
+
+Theorem c07_mismatch_rejected_unknown_msg_type :
+  forall cfg cap mism l v,
+    In v l -> ~ In (lv_tag v) (msg_types cfg) ->
+    exists e, load_buffer cfg cap mism (mk_bufck cap (Some l)) = Err e.
+Proof. exact unknown_msg_type_rejected. Qed.
+Print Assumptions c07_mismatch_rejected_unknown_msg_type.
+
+Theorem c07_mismatch_rejected_unknown_event_type_or_handler :
+  forall cfg hs l v,
+    In v l ->
+    (~ In (vv_tag v) (evt_types cfg) \/ exists t s h, vv_dec v = Some (t, s, h) /\ ~ In h hs) ->
+    exists e, decode_events cfg hs (Some l) = Err e.
+Proof. exact unknown_event_rejected. Qed.
+Print Assumptions c07_mismatch_rejected_unknown_event_type_or_handler.
+
+(** link between the two evaluators (complete for single-entity probes; for whole
+    simulations only the no-panic clause — the full link is left open, see level_note) *)
+Theorem c07_model_agreement_implies_property_partial :
+  (forall cfg e0 p o blow,
+     check_case (CProbe cfg e0 p o blow) = true -> holds_on (CProbe cfg e0 p o blow) = true) /\
+  (forall cfg b1 b2 s s0 t a1 h1 o h2 eq,
+     check_case (CSim cfg b1 b2 s s0 (Some t) a1 h1 o h2 eq) = true -> is_panic o = false).
+Proof. split; [exact probe_agreement_implies_property|exact sim_agreement_no_panic]. Qed.
+Print Assumptions c07_model_agreement_implies_property_partial.
+
+Example c07_canonical_nonvacuous :
+  exists a s', save_sim [98] ex_sim = Ok a /\ load_all ex_cfg [98] a ex_rebuilt = Ok s' /\
+               save_sim [98] s' = Ok a /\ length a = 5%nat.
+Proof. exact canonical_example. Qed.
